@@ -177,3 +177,20 @@ Example C20_spelling_examples :
   same "* | json | sort by a" "* | json | sort by a ascending" /\
   same "( a OR b ) | json | where ( x == 1 ) | sum( x )" "(a OR b)|json|where (x==1)|sum(x)".
 Proof. vm_compute. repeat split. Qed.
+
+(** KF-38, KF-30 - two spellings that differ only in optional whitespace / redundant parentheses and do NOT mean the
+    same: [2h-30m] is one duration literal (so [2h-30m*2] is 1h30m * 2 while [2h - 30m*2] is 2h - 1h), and an
+    expression starting with a bare column named like an operator keyword is rejected while its parenthesised
+    spelling is accepted.  Both are language decisions left to the maintainers (known findings). *)
+Theorem C20_duration_literal_swallows_minus_refuted :
+  option_map lq_ops (parse_query (lit "* | 2h-30m*2 as x")) =
+    Some [LFieldExpr (EArith AMul (EVal (VDur 5400000000000)) (EVal (VInt 2))) (lit "x")] /\
+  option_map lq_ops (parse_query (lit "* | 2h - 30m*2 as x")) =
+    Some [LFieldExpr (EArith ASub (EVal (VDur 7200000000000)) (EArith AMul (EVal (VDur 1800000000000)) (EVal (VInt 2)))) (lit "x")].
+Proof. vm_compute. split; reflexivity. Qed.
+Print Assumptions C20_duration_literal_swallows_minus_refuted.
+Theorem C20_reserved_word_column_refuted :
+  accepts (lit "* | json | total - used as free") = None /\
+  accepts (lit "* | json | (total) - used as free") <> None.
+Proof. vm_compute. split; [reflexivity|discriminate]. Qed.
+Print Assumptions C20_reserved_word_column_refuted.
